@@ -44,7 +44,14 @@ VALUES: Dict[str, Dict[str, Any]] = {
 # byte in front of the payload, so that a negative response stays undecodable for the positive response.
 PADDED_TYPES = ("asciiz", "bytesz")
 KIND = {"u8z": "u8", "floatz": "float", "asciiz": "ascii", "bytesz": "bytes"}  # comparison kind of the falsy variants
-LAYOUTS = ("top", "toppath", "struct", "field", "tstruct")
+BASE_LAYOUTS = ("top", "toppath", "struct", "field", "tstruct")
+# field replies: layout -> (number of items, index of the item that carries the wanted value); all other items carry "other"
+FIELD_ITEMS = {"field": (2, 1), "f1_0": (1, 0), "f2_0": (2, 0), "f3_0": (3, 0), "f3_1": (3, 1), "f3_2": (3, 2),
+               "fnest": (2, 1),  # field -> nested structure -> leaf        (SNPATHREF fl.in.id)
+               "ffield": (2, 1)}  # field (one item) -> field -> leaf         (SNPATHREF fl.fl2.id)
+# "sstruct": structure -> structure -> leaf (SNPATHREF st.in.id)
+EXTRA_LAYOUTS = ("f1_0", "f2_0", "f3_0", "f3_1", "f3_2", "fnest", "sstruct", "ffield")
+LAYOUTS = BASE_LAYOUTS + EXTRA_LAYOUTS
 
 
 def expected_text(typ: str, v: Any) -> str:
@@ -107,13 +114,14 @@ def request_bytes(svc: Dict[str, Any], own: bool = False) -> bytes:
 
 
 def item_values(svc: Dict[str, Any], answer: str) -> List[Any]:
-    """Values of the identification parameter `id` carried by the reply (a field carries two items)."""
+    """Values of the identification parameter `id` carried by the reply (a field carries 1..3 items, exactly one
+    of them -- the first, a middle or the last one -- with the wanted value: 'any item of a field' is needed)."""
     if answer not in ("V1", "V2"):
         return []
     vals = VALUES[svc["type"]]
-    if svc["layout"] == "field":
-        # the wanted value is NOT the first item: 'any item of a field' is needed to see it
-        return [vals["other"], vals[answer]]
+    if svc["layout"] in FIELD_ITEMS:
+        n, k = FIELD_ITEMS[svc["layout"]]
+        return [vals[answer] if i == k else vals["other"] for i in range(n)]
     return [vals[answer]]
 
 
